@@ -77,6 +77,7 @@ package fpgo
 //@   requires monadIOSelf != nil
 //@   ensures lazy: tr_len == old(tr_len)
 //@   ensures set: r0 != nil && r0.subOn == h && r0.obOn == old(monadIOSelf.obOn) && r0.effect == old(monadIOSelf.effect)
+//@   ensures fluent: r0 == monadIOSelf
 
 //@ func (MonadIODef).ObserveOn
 //@   prop C11
@@ -86,6 +87,7 @@ package fpgo
 //@   requires monadIOSelf != nil
 //@   ensures lazy: tr_len == old(tr_len)
 //@   ensures set: r0 != nil && r0.obOn == h && r0.subOn == old(monadIOSelf.subOn) && r0.effect == old(monadIOSelf.effect)
+//@   ensures fluent: r0 == monadIOSelf
 
 //@ func (MonadIODef).Eval
 //@   prop C11
@@ -300,6 +302,7 @@ package fpgo
 //@   modifies publisherSelf, publisherSelf.subscribers
 //@   requires publisherSelf != nil && PUB_WF(publisherSelf)
 //@   ensures derived: r0 != nil && fresh(r0) && r0.origin == publisherSelf
+//@   ensures starts-empty-without-handler: r0.subOn == nil && len(r0.subscribers) == 0
 //@   ensures subscribed: len(publisherSelf.subscribers) == old(len(publisherSelf.subscribers))+1 && forall(i, 0, old(len(publisherSelf.subscribers)), publisherSelf.subscribers[i] == old(publisherSelf.subscribers[i]))
 //@ func (PublisherDef).Map lit 0
 //@   prop C10
@@ -308,6 +311,49 @@ package fpgo
 //@   requires next != nil && fn != nil && PUB_WF(next) && (next.subOn != nil ==> !next.subOn.isClosed)
 //@   ensures mapped-first: tr_len >= old(tr_len)+1 && tr_kind[old(tr_len)] == 1 && tr_fn[old(tr_len)] == fn && tr_arg[old(tr_len)] == in
 //@   ensures then-published-downstream: Publish_arg_publisherSelf == next && Publish_arg_result == tr_res[old(tr_len)]
+
+// YieldFromIO / DoNotation: the per-goroutine facts around the WaitGroup join (events 8 Add, 9 Done, 10 Wait).
+// YieldFromIO: the caller announces one Done, subscribes exactly once to the given IO with the subscribe handler reset to nil
+// (so that the delivery cannot be parked on a handler that is busy with this very coroutine), waits, and returns what the
+// variable holds after the join.  The delivering callback stores its argument before it signals, and signals once.
+// With C11's Subscribe (OnNext called exactly once with the value of the composition) and the WaitGroup's join this is
+// "YieldFromIO returns the IO's value".
+//@ func (CorDef).YieldFromIO
+//@   prop C14
+//@   opt callbacks=effectful
+//@   opt effects=trace
+//@   modifies target
+//@   requires target != nil && target.effect != nil && (target.obOn != nil ==> !target.obOn.isClosed)
+//@   ensures subscribed-inline: Subscribe_arg_monadIOSelf == target && target.subOn == nil && target.effect == old(target.effect) && target.obOn == old(target.obOn)
+//@   ensures the-callback-is-the-subscription: Subscribe_arg_s.OnNext == _lit0
+//@   ensures announce-first-wait-last: tr_len >= old(tr_len)+2 && tr_kind[old(tr_len)] == 8 && tr_arg[old(tr_len)] == boxed(1) && tr_kind[tr_len-1] == 10
+//@   ensures returns-what-the-callback-stored: r0 == result
+//@ func (CorDef).YieldFromIO lit 0
+//@   prop C14
+//@   opt callbacks=effectful
+//@   opt effects=trace
+//@   ensures@done stored-before-signalling: result == in
+//@   ensures stored: result == in
+//@   ensures signals-once: tr_len == old(tr_len)+1 && tr_kind[old(tr_len)] == 9
+
+// DoNotation: one Done is announced, a NEW coroutine is made whose effect is the do-block's wrapper, started (exactly one
+// goroutine, C14 Start), and the caller waits and returns what the variable holds after the join.  The wrapper runs the
+// user's function exactly once, with that new coroutine, stores its result and only then signals.
+//@ func (CorDef).DoNotation
+//@   prop C14
+//@   opt callbacks=effectful
+//@   opt effects=trace
+//@   requires effect != nil
+//@   ensures new-coroutine-runs-the-wrapper: CorNewGenerics_arg_effect == _lit0 && Start_arg_corSelf == CorNewGenerics_r0 && cor == CorNewGenerics_r0
+//@   ensures announce-start-wait: tr_len == old(tr_len)+3 && tr_kind[old(tr_len)] == 8 && tr_arg[old(tr_len)] == boxed(1) && tr_kind[old(tr_len)+1] == 4 && tr_kind[old(tr_len)+2] == 10
+//@   ensures returns-what-the-wrapper-stored: r0 == result
+//@ func (CorDef).DoNotation lit 0
+//@   prop C14
+//@   opt callbacks=effectful
+//@   opt effects=trace
+//@   requires effect != nil
+//@   ensures@done result-stored-before-signalling: tr_len == old(tr_len)+1 && tr_kind[old(tr_len)] == 1 && tr_fn[old(tr_len)] == effect && tr_arg[old(tr_len)] == boxed(cor) && boxed(result) == tr_res[old(tr_len)]
+//@   ensures once-then-signal: tr_len == old(tr_len)+2 && tr_kind[old(tr_len)] == 1 && tr_fn[old(tr_len)] == effect && tr_arg[old(tr_len)] == boxed(cor) && boxed(result) == tr_res[old(tr_len)] && tr_kind[old(tr_len)+1] == 9
 
 // ===================================================================================================
 // C13 - Ask/Reply: the per-goroutine facts.  Every request object carries its own reply channel (fresh, with room for one
@@ -370,6 +416,7 @@ package fpgo
 // Events: 4 = go, 5 = send, 6 = close, 7 = receive (tr_obj = channel, tr_arg = value sent, tr_res = value received).
 //@ func CorNewGenerics
 //@   prop C14
+//@   opt holds-callbacks=true
 //@   ensures made: r0 != nil && fresh(r0) && r0.effect == effect && r0.opCh != nil && fresh(r0.opCh) && r0.resultCh != nil && fresh(r0.resultCh) && chancap(r0.opCh) == 5 && chancap(r0.resultCh) == 5 && !r0.isStarted && !r0.isClosed
 //@ func (CorDef).IsDone
 //@   prop C14
